@@ -2,6 +2,8 @@
 mod capi;
 mod goldens;
 mod mutators;
+mod projdrv;
+mod projgen;
 mod props;
 mod runner;
 mod util;
@@ -30,6 +32,10 @@ fn main() {
     }
     match args[1].as_str() {
         "goldens" => std::process::exit(goldens::main()),
+        "observe" => {
+            runner::install_panic_hook();
+            std::process::exit(projdrv::observe_main(&runner::path_arg(&args[2]), &runner::path_arg(&args[3])));
+        }
         "list" => {
             for p in registry() {
                 println!("{}", p.id);
